@@ -698,7 +698,8 @@ def mirror_tie(rep, cases, sel):
         if not a.get("M") or not c.inputs:
             continue
         st = list(c.settings) + ["-"] * (10 - len(c.settings))
-        lcs.append(lf.Case(c.grammar, st[:10], [(c.algo, "0", inp, {}) for inp in c.inputs], gram=None, tag="mirror"))
+        pp = "1" if st[7] == "1" else "0"      # the generated constructor wires partial_parse / skip_ws / has_layout from the settings
+        lcs.append(lf.Case(c.grammar, st[:10], [(c.algo, pp, inp, {}) for inp in c.inputs], gram=None, tag="mirror"))
         lcs[-1].max_trees = 0
         idx.append(i)
     if not lcs:
